@@ -5,6 +5,7 @@ package main
 // C06 (authorisation).  Sub-commands c11 and c06 run the same scenario with a different tx mix.
 
 import (
+	"bytes"
 	"crypto/ecdsa"
 	"encoding/json"
 	"fmt"
@@ -53,6 +54,7 @@ type ledgerTx struct {
 	tx        *types.Transaction
 	orig      *types.Transaction // pristine copy (a box tx is rewritten in place when executed)
 	id        int
+	fwdTarget common.Address // create-forwarder*: the address the deployed contract forwards the call's value to
 	fromKeys  []string // labels of the keys that really signed Sigs (ground truth for C06)
 	payerKeys []string
 	tampered  bool // content changed after signing
@@ -92,6 +94,7 @@ type ledger struct {
 	pvBal    map[common.Address]*big.Int
 	pvCode   map[common.Address]bool
 	actorOf map[common.Address]string // account address -> name of its key (users, genesis deputies, income addresses)
+	fwd     map[common.Address]common.Address // forwarder contract -> the address its code forwards the call's value to
 }
 
 func (l *ledger) label(a common.Address) int {
@@ -363,7 +366,7 @@ func ledgerEpoch(c *Ctx, mode string, nBlocks int, epoch int) {
 	}
 	var contracts []common.Address
 	contractClass := map[common.Address]string{} // contract address -> class of the tx that created it
-	l := &ledger{c: c, w: w, n: n, labels: map[common.Address]int{}, names: map[string]*ecdsa.PrivateKey{}, mode: mode, actorOf: map[common.Address]string{},
+	l := &ledger{c: c, w: w, n: n, labels: map[common.Address]int{}, names: map[string]*ecdsa.PrivateKey{}, mode: mode, actorOf: map[common.Address]string{}, fwd: map[common.Address]common.Address{},
 		rewardSet: map[uint32]*big.Int{}, rewardPaid: map[uint32]uint32{}, termT: termT, termI: termI}
 	// fixed labels: pool = 1, founder = 2
 	l.label(params.DepositPoolAddress)
@@ -494,7 +497,8 @@ func ledgerEpoch(c *Ctx, mode string, nBlocks int, epoch int) {
 			k = []string{"asset-create", "asset-create", "asset-issue", "asset-issue", "asset-replenish", "asset-modify", "asset-modify", "asset-transfer", "asset-transfer", "transfer"}[rnd.Intn(10)]
 		}
 		if contractBlock {
-			k = []string{"create-counter", "create-reverter", "create-logger", "create-killer", "create-killer-self", "create-killer-self", "create-sweep", "create-sweep", "create-sweep", "call", "call", "call", "call-value", "call-value", "transfer", "create-bh", "create-bh", "create-env", "call", "call"}[rnd.Intn(20)]
+			k = []string{"create-counter", "create-reverter", "create-logger", "create-killer", "create-killer-self", "create-killer-self", "create-sweep", "create-sweep", "create-sweep", "call", "call", "call", "call-value", "call-value", "transfer", "create-bh", "create-bh", "create-env", "call", "call",
+				"create-forwarder", "create-forwarder", "create-forwarder-revert", "create-forward-to-contract", "create-creator", "create-overdrafter", "call-value", "call-value", "call-value", "call-value"}[rnd.Intn(30)]
 		}
 		c.Count("gen:" + k)
 		cands := []common.Address{}
@@ -846,6 +850,45 @@ func ledgerEpoch(c *Ctx, mode string, nBlocks int, epoch int) {
 			// LOG1(topic 5) over empty data, then storage[2]=caller
 			rt := []byte{0x60, 0x05, 0x60, 0x00, 0x60, 0x00, 0xa1, 0x33, 0x60, 0x02, 0x55, 0x00}
 			return mk(txCreate(uk, nil, initCodeFor(rt), TxOpt{Exp: exp(), Msg: u_("cl")}), k, u)
+		case "create-overdrafter":
+			// INNER overdraft: CALL(GAS, F, BALANCE(ADDRESS)+1, 0,0,0,0): one unit more than the contract owns (the call's value
+			// included) — the inner call must fail, nothing moves on, the contract keeps what it was sent
+			target := keyAddr(ok_)
+			rt := cat([]byte{0x60, 0x00, 0x60, 0x00, 0x60, 0x00, 0x60, 0x00, 0x30, 0x31, 0x60, 0x01, 0x01}, pushAddr(target), []byte{0x5a, 0xf1, 0x50, 0x00})
+			lt := mk(txCreate(uk, lemo(int64(rnd.Intn(2))), initCodeFor(rt), TxOpt{Exp: exp(), Msg: u_("cod")}), k, u)
+			lt.fwdTarget = target
+			return lt
+		case "create-forwarder", "create-forwarder-revert", "create-forward-to-contract":
+			// INNER value flow: CALL(GAS, target, CALLVALUE, 0,0,0,0); POP; then STOP (forwarder: the whole value of the call
+			// moves on to the target) or REVERT (forwarder-revert: the inner transfer must be undone, the tx fails, nothing
+			// but the fee moves). forward-to-contract: the target is an existing contract (a reverter: the inner call fails and
+			// the value stays in the forwarder; a killer / killer-self: the value is swept on or burnt by the callee)
+			target := keyAddr(ok_)
+			if k == "create-forward-to-contract" {
+				if len(contracts) == 0 {
+					k = "create-forwarder"
+				} else {
+					// (not a contract that burns — self-destruct to itself — nor one that forwards to a further contract: the
+					// expected burn of the block is computed from the DIRECT calls only)
+					target = contracts[rnd.Intn(len(contracts))]
+					if cl := contractClass[target]; cl == "create-killer-self" || cl == "create-forward-to-contract" || cl == "" {
+						k, target = "create-forwarder", keyAddr(ok_)
+					}
+				}
+			}
+			rt := cat([]byte{0x60, 0x00, 0x60, 0x00, 0x60, 0x00, 0x60, 0x00, 0x34}, pushAddr(target), []byte{0x5a, 0xf1, 0x50})
+			if k == "create-forwarder-revert" {
+				rt = cat(rt, []byte{0x60, 0x00, 0x60, 0x00, 0xfd})
+			} else {
+				rt = cat(rt, []byte{0x00})
+			}
+			lt := mk(txCreate(uk, lemo(int64(rnd.Intn(2))), initCodeFor(rt), TxOpt{Exp: exp(), Msg: u_("cf")}), k, u)
+			lt.fwdTarget = target
+			return lt
+		case "create-creator":
+			// INNER creation with endowment: CREATE(CALLVALUE, 0, 0) (empty init code: an empty contract that keeps the value)
+			rt := []byte{0x60, 0x00, 0x60, 0x00, 0x34, 0xf0, 0x50, 0x00}
+			return mk(txCreate(uk, nil, initCodeFor(rt), TxOpt{Exp: exp(), Msg: u_("ccr")}), k, u)
 		case "create-killer":
 			// SELFDESTRUCT to caller
 			rt := []byte{0x33, 0xff}
@@ -904,7 +947,20 @@ func ledgerEpoch(c *Ctx, mode string, nBlocks int, epoch int) {
 			if rnd.Intn(5) == 0 {
 				gl = uint64(21500 + rnd.Intn(3000)) // runs out of gas inside the contract
 			}
-			return mk(txCall(uk, contracts[rnd.Intn(len(contracts))], val, []byte{byte(rnd.Intn(256))}, TxOpt{Exp: exp(), GasLimit: gl, Msg: u_("ca")}), k, u)
+			callee := contracts[rnd.Intn(len(contracts))]
+			if k == "call-value" && len(l.fwd) > 0 && rnd.Intn(2) == 0 {
+				// a contract with an INNER value flow (forwarder / forwarder-revert / overdrafter / forward-to-contract)
+				var fl []common.Address
+				for a := range l.fwd {
+					fl = append(fl, a)
+				}
+				sort.Slice(fl, func(i, j int) bool { return bytes.Compare(fl[i][:], fl[j][:]) < 0 })
+				callee = fl[rnd.Intn(len(fl))]
+				if gl < 70000 && rnd.Intn(3) > 0 {
+					gl += 70000
+				}
+			}
+			return mk(txCall(uk, callee, val, []byte{byte(rnd.Intn(256))}, TxOpt{Exp: exp(), GasLimit: gl, Msg: u_("ca")}), k, u)
 		case "transfer":
 			return mk(txTransfer(uk, keyAddr(ok_), amountNear(nil), TxOpt{Exp: exp(), Msg: u_("m")}), k, u)
 		case "zero":
@@ -1651,6 +1707,9 @@ func ledgerEpoch(c *Ctx, mode string, nBlocks int, epoch int) {
 				if tx.Type() == params.CreateContractTx {
 					if lt := byHash[tx.Hash()]; lt != nil {
 						contractClass[crypto.CreateContractAddress(tx.From(), tx.Hash())] = lt.class
+						if lt.fwdTarget != (common.Address{}) {
+							l.fwd[crypto.CreateContractAddress(tx.From(), tx.Hash())] = lt.fwdTarget
+						}
 					}
 				}
 			}
